@@ -136,10 +136,12 @@ def raster_body(ctx: Ctx, p: dict) -> None:
             cfg["disp"] = files.write_tiff(os.path.join(d, "grid.tif"), grid, dtype="float32")
         classif = segm = None
         if p["classif"]:
-            classif = (np.arange(2 * H * W).reshape(2, H, W) % 3).astype(np.int16)
+            # class codes over the whole 16-bit range (negative, above 255), "attached unchanged"
+            classif = ((np.arange(2 * H * W).reshape(2, H, W) % 7) * 150 - 300).astype(np.int16)
+            classif[:, 0, 0] = [32767, -32768]
             cfg["classif"] = files.write_tiff(os.path.join(d, "classif.tif"), classif, dtype="int16", descriptions=["veg", "water"])
         if p["segm"]:
-            segm = (np.arange(H * W).reshape(H, W) % 5).astype(np.int16)
+            segm = ((np.arange(H * W).reshape(H, W) % 5) * 9000 - 20000).astype(np.int16)
             cfg["segm"] = files.write_tiff(os.path.join(d, "segm.tif"), segm, dtype="int16")
         roi = p.get("roi")
         win = expected_window(roi, H, W) if roi else (0, H - 1, 0, W - 1)
